@@ -565,6 +565,7 @@ func runC03(p *core.Prog, r *core.Result) {
 		"R3.9 what Evaluate records is what the target reports from then on: the Target interface has a method through which every implementation that keeps its record in a field replaces that field, and every record write of Evaluate hands the very record it wrote to that method - otherwise a Project that is used for several runs (run() in the REPL) decides the next run from the record read at load: a target whose body failed in a forced run is up to date again, and the build succeeds",
 		"R3.10 what depends on a target that executed in this build is re-executed, whatever stamp the execution ended with: a dependency counts as up to date only if it has a recorded stamp, did not execute in this build (the changed flag, set by every execution and never reset) and its stamp equals the recorded one (C01's R1.2 and R1.10) - a target interrupted inside its body, or failed, whose input is then reverted, lands on its earlier stamp; only the flag makes it and its dependents run again",
 		"R3.11 a body whose command did not complete fails: for every (*exec.Cmd).Run / Wait / Output / CombinedOutput in the module, no return on the failing edge of that call reports success, unless the failure is handed on as (*exec.ExitError).ExitCode() and every caller compares that code with zero by == / != only (ExitCode() is -1 for a process killed by a signal: `code > 0` records a target whose command was killed half-way as up to date on its partial output)",
+		"R3.12 when a body starts the record on disk no longer says up to date: Evaluate writes a record with Rerun = true before it invokes Target.evaluate() and reaches the body only where that write succeeded - the reason a target runs for (a missing generated file, a forced build) need not outlast the process, and a process that dies inside the body would otherwise leave the last success's record to vouch for half-written outputs",
 		"R3.8 the stamp a re-executed target records depends on the stamps of the dependencies this evaluation used (not those of its previous record): a build that dies after the target's record was written and before its dependents' records were leaves the dependents out of date (shared with C01 R1.3)",
 	}
 	r.NotDecided = []string{"kernel-level atomicity/durability of rename (no fsync: the crash model is process death, not power loss)", "convergence of outputs after recovery"}
@@ -932,6 +933,9 @@ func runC03(p *core.Prog, r *core.Result) {
 		}
 		r.Floor("R3.10", n, 3, "obligations on the dependency verdict and the changed flag")
 	}
+
+	// ---- R3.12 a pending record is on disk before the body starts
+	checkPendingRecordBeforeBody(p, r, "R3.12")
 
 	// ---- R3.11 a command that did not complete fails the body
 	checkCommandFailureFailsBody(p, r, "R3.11")
